@@ -3,7 +3,7 @@ import { Reporter, TIER, valueKind, sha } from "./common.mjs";
 import { familyPrograms, forEachCompiledParser } from "./cases.mjs";
 import { CompilePool, classify, DEFAULT_SETTINGS } from "./compile.mjs";
 import { loadProgram } from "./runtime.mjs";
-import { render, skeleton, Alias, Ref, ObjT, Prop, P, L, U, ArrT, Tup, Rec, MapT, SetT, Typed, FmtS, FmtN } from "./spec.mjs";
+import { render, skeleton, Alias, Ref, ObjT, Prop, P, L, U, ArrT, Tup, Rec, MapT, SetT, Typed, FmtS, FmtN, Tpl, H } from "./spec.mjs";
 import { build, toSrc, pool } from "./universe.mjs";
 import { classifyDiff } from "./structkey.mjs";
 
@@ -23,6 +23,18 @@ function hostilePrograms() {
   parsers.push(["EmptyTuple", Tup([])]);
   parsers.push(["Nested", ArrT(U(Tup([L("a")], P("number")), Rec(P("string"), ArrT(P("null")))))]);
   for (let i = 0; i < parsers.length; i += 20) progs.push({ family: "HOSTILE", decls: [], parsers: parsers.slice(i, i + 20) });
+  // declarations named like the identifiers describe() itself introduces (mapped-type parameter K, Codec<Name> aliases),
+  // used twice so that they are printed as aliases
+  progs.push({
+    family: "HOSTILE",
+    decls: [Alias("K", ObjT([Prop("k", L(1))])), Alias("CodecX", ObjT([Prop("c", L(2))])), Alias("T", ObjT([Prop("t", L(3))]))],
+    parsers: [
+      ["RK", ObjT([Prop("r", Rec(Tpl("x-", H("string")), Ref("K"))), Prop("again", Ref("K"), true)])],
+      ["RK2", Tup([Rec(FmtS("f1"), Ref("K")), Ref("K")])],
+      ["X", ObjT([Prop("a", Ref("CodecX")), Prop("b", Ref("CodecX"), true)])],
+      ["GT", ObjT([Prop("a", Ref("T")), Prop("b", ArrT(Ref("T")))])],
+    ],
+  });
   return progs;
 }
 
@@ -54,7 +66,7 @@ export async function run() {
       stats.parsers++;
       const skel = skeleton(spec0, refProg);
       const typeText = render(spec0);
-      const detail = { engine: "E-src", program: text, parser: name, type: typeText };
+      const detail = { engine: "E-src", program: text, parser: name, type: typeText, case_id: skel };
       let desc;
       const t0 = Date.now();
       try {
@@ -69,9 +81,11 @@ export async function run() {
       const declared = [...desc.matchAll(/^type ([A-Za-z_$][\w$]*)\s*=/gm)].map((m) => m[1]);
       const dup = declared.find((n, i) => declared.indexOf(n) !== i);
       if (dup) rep.violation(`C15 alias declared twice`, `describe() of \`${typeText}\` declares ${dup} twice`, { ...detail, describe: desc });
-      if (!declared.includes(`Codec${name}`)) rep.violation(`C15 codec alias missing`, `describe() of \`${typeText}\` does not declare Codec${name}`, { ...detail, describe: desc });
+      // the parser's own alias is the last declaration: Codec<name>, with a suffix when a referenced type has that name
+      const codec = declared[declared.length - 1];
+      if (!codec || !codec.startsWith(`Codec${name}`)) rep.violation(`C15 codec alias missing`, `describe() of \`${typeText}\` does not end with the declaration of Codec${name}`, { ...detail, describe: desc });
       if (declared.length > 1) stats.withAliases++;
-      const prog2 = `${desc}\n\nexport const Parsers = parse.buildParsers<{ X: Codec${name} }>();\n`;
+      const prog2 = `${desc}\n\nexport const Parsers = parse.buildParsers<{ X: ${codec ?? "Codec" + name} }>();\n`;
       const base = { vec: vectors(parser, U), h: parser.hash256() };
       if (base.vec.includes("1") && base.vec.includes("0")) outcomes.add(skel + sha(base.vec));
       pending.push(
